@@ -9,8 +9,8 @@ import numpy as np
 from vlib import core, dom, rescorr
 
 ID = "C20"
-GEN = ["plotting"]
-PROPS = ["C20_plots.v", "C20_helpers.v"]
+GEN = ["plotting", "fitpressure"]
+PROPS = ["C20_plots.v", "C20_helpers.v", "C20_comparison.v"]
 
 
 def coq_model(ctx, items):
